@@ -76,10 +76,9 @@ theorem eval_ite_true (cx : Cx) (c : Nat) (t e : List Sk) (s0 s2 : TS σ)
     simp only
     split
     · exact eval_seq_single (Eval.andTrue _ _ _ _ _ _ hcond hbt)
-    · have hor : Eval W (.expr (.or_ (wrapT cx.wrap (lowerB cx t)) .one)) { s0 with st := (W.cond c s0.st).1 } s2 true := by
-        cases bt with
-        | true => exact Eval.orTrue _ _ _ _ hbt
-        | false => exact Eval.orFalse _ _ _ _ _ _ hbt (Eval.one _)
+    · -- `c and [body] or else`: the one-element list is true whatever the body's value is
+      have hor : Eval W (.expr (.seqList [wrapT cx.wrap (lowerB cx t)])) { s0 with st := (W.cond c s0.st).1 } s2 true :=
+        Eval.seqList _ _ _ (eval_seq_single hbt)
       exact eval_seq_single (Eval.orTrue _ _ _ _ (Eval.andTrue _ _ _ _ _ _ hcond hor))
 
 theorem eval_ite_false (cx : Cx) (c : Nat) (t e : List Sk) (s0 s2 : TS σ)
